@@ -67,13 +67,21 @@ def plan_for(ops, tier, rnd):
     return inj, exhaustive, K
 
 
-def run_injection(built, proj, expected, k, action, rules, xdev=False, stdio=False, reads=False):
+def notmp_wrap(box):
+    """TMPDIR is not set at all: the temporary directory is /tmp - a private one (the sandbox's, bind-mounted in a mount namespace of
+    the run's own), so that what the run leaves there can be told from everybody else's files."""
+    return (["unshare", "-m", "sh", "-c", 'mount --bind "$1" /tmp || exit 97; shift; unset TMPDIR; exec "$@"', "sh", box.tmp],
+            {"VF_SHIM_ROOT2": "/tmp"})
+
+
+def run_injection(built, proj, expected, k, action, rules, xdev=False, stdio=False, reads=False, notmp=False):
     import shutil
     with core.Box(tag="c07") as box:
         cfg = proj.materialise(box)
         td = fault.foreign_tmpdir(box) if xdev else None
+        wrap, envx = notmp_wrap(box) if notmp else (None, None)
         try:
-            rec = core.run_breadlog(built, box, cfg, rules=rules, timeout=120, tmpdir=td, stdio_ops=stdio, read_ops=reads)
+            rec = core.run_breadlog(built, box, cfg, rules=rules, timeout=120, tmpdir=td, stdio_ops=stdio, read_ops=reads, wrap=wrap, env_extra=envx)
         finally:
             if td:
                 shutil.rmtree(td, ignore_errors=True)
@@ -87,9 +95,16 @@ def work(job):
     built, pi, proj, expected, k, action, rules, phase = job[:8]
     xdev = job[8] if len(job) > 8 else False
     stdio = job[9] if len(job) > 9 else False
+    notmp = job[10] if len(job) > 10 else False
     reads = str(action).startswith("read-") or action == "all-reads-short"
     res = {"evaluations": 1, "nontrivial": [], "violations": [], "samples": [], "inconclusive": {}, "counters": {}}
-    rec, states, other, fired = run_injection(built, proj, expected, k, action, rules, xdev, stdio, reads)
+    rec, states, other, fired = run_injection(built, proj, expected, k, action, rules, xdev, stdio, reads, notmp)
+    if notmp:
+        if rec.rc == 97:
+            res["inconclusive"]["no private mount namespace available for the TMPDIR-unset runs"] = 1
+            return res
+        phase = "no-TMPDIR:" + phase
+        res["counters"]["injections_with_TMPDIR_unset"] = 1
     if reads:
         res["counters"]["read_fault_injections"] = 1
     if xdev:
@@ -131,7 +146,7 @@ def work(job):
         res["violations"].append({"signature": "C07.%s|%s|%s" % (s, act_class, phase),
                                   "detail": {"file": rel, "state": s, "k": k, "action": action, "phase": phase, "end": rec.ended(),
                                              "fired": fired[:1], "ops_tail": [(o["n"], o["kind"], os.path.basename(o["path"]), o["bytes"]) for o in (rec.shim or [])[-6:]]},
-                                  "case": {"project": pi, "k": k, "action": action, "rules": rules, "xdev": xdev}})
+                                  "case": {"project": pi, "k": k, "action": action, "rules": rules, "xdev": xdev, "notmp": notmp}})
         break
     if other:
         res["violations"].append({"signature": "C07.other-project-file-changed|%s|%s" % (act_class, phase), "detail": {"files": other},
@@ -329,6 +344,13 @@ def main(tier):
                 if kind != "rename" and e in ("EXDEV", "EBUSY", "EEXIST", "EPERM"):
                     continue
                 jobs.append((built, pi, proj, expected, "all-%s" % kind, "persistent-" + e, "%s,act=errno:%d" % (scope, fault.ERRNO[e]), "persistent:" + kind))
+        # the same run with TMPDIR not set at all (the temporary directory is then /tmp): every operation is a crash point
+        if pi in (0, 2) or tier == "thorough":
+            for k in ([o["n"] for o in ops if o["kind"] != "write"] + [o["n"] for o in ops if o["kind"] == "write"][:20]):
+                for act in ("kill-before", "kill-after"):
+                    jobs.append((built, pi, proj, expected, k, act, "n=%d,act=%s" % (k, act), fault.phase_of(ops[k - 1]), False, False, True))
+                if ops[k - 1]["kind"] in ("openw", "rename"):
+                    jobs.append((built, pi, proj, expected, k, "EACCES", "n=%d,act=errno:13" % k, fault.phase_of(ops[k - 1]), False, False, True))
         # a genuine cross-device TMPDIR: every rename fails with a real EXDEV; all operations of that run are crash points
         if pi in (0, 3) or tier == "thorough":
             xops, _, xrec, _, _ = fault.clean_reference(built, proj, xdev=True)
@@ -437,7 +459,7 @@ def replay_witness(w, ck=None, built=None):
     if not c.get("rules"):
         return any(fault.phase_of(o) in TRACE_RULE_PHASES for o in ops)
     phase = "?"
-    r = work((built, c["project"], proj, expected, c["k"], c["action"], c["rules"], phase, c.get("xdev", False), c.get("action") == "EPIPE-on-log-line"))
+    r = work((built, c["project"], proj, expected, c["k"], c["action"], c["rules"], phase, c.get("xdev", False), c.get("action") == "EPIPE-on-log-line", c.get("notmp", False)))
     return bool(r["violations"])
 
 
